@@ -38,19 +38,6 @@ Proof. split; [reflexivity|]. unfold zero_poly, canon. apply Forall_forall. intr
 #[global] Hint Resolve cpoly_padd cpoly_psub cpoly_pmul cpoly_ntt cpoly_intt cpoly_zero : cpoly.
 
 (* ---- pointwise ring laws ---- *)
-Ltac pw_start :=
-  unfold cpoly, padd, psub, pmul;
-  repeat match goal with |- (_ /\ _) -> _ => intros [? ?] end.
-
-Lemma pw3 (F G : Z -> Z -> Z -> Z) :
-  (forall x y z, 0 <= x < q -> 0 <= y < q -> 0 <= z < q -> F x y z = G x y z) ->
-  forall a b c n, length a = n -> length b = n -> length c = n -> canon a -> canon b -> canon c ->
-  map2 (fun xy z => F (fst xy) (snd xy) z) (combine a b) c = map2 (fun xy z => G (fst xy) (snd xy) z) (combine a b) c.
-Proof.
-  intros H a. induction a as [|x a IH]; intros b c n La Lb Lc Ca Cb Cc; destruct b, c; simpl in *; try reflexivity; try lia.
-  inv_canon. f_equal; [apply H; auto|]. eapply IH; eauto.
-Qed.
-
 (* direct inductions (few lists) *)
 Lemma pmul_padd_r c a b : cpoly c -> cpoly a -> cpoly b -> pmul c (padd a b) = padd (pmul c a) (pmul c b).
 Proof.
